@@ -7,6 +7,12 @@ shift 2>/dev/null
 # optional: the patches to run (default: all of preserving/*.diff)
 LIST="$*"; [ -n "$LIST" ] || LIST=$(ls preserving/*.diff)
 export GOFLAGS=-mod=mod GOPROXY=off GOSUMDB=off GOTOOLCHAIN=local
+# Builds against scratch worktrees fill the Go build cache quickly (every worktree path gives new cache
+# entries for the whole harness: a few hundred MB each).  They get a cache of their own, emptied when it
+# grows beyond 12 GB (flock: several of these scripts may run at once).
+export GOCACHE=/tmp/verif-gocache
+mkdir -p $GOCACHE
+( flock 9; sz=$(du -s --block-size=1G $GOCACHE 2>/dev/null | cut -f1); if [ "${sz:-0}" -gt 12 ]; then rm -rf $GOCACHE/*; fi ) 9>/tmp/verif-gocache.lock
 rc=0
 for p in $LIST; do
   WT=/tmp/pv-$$; git -C /repo worktree add --detach $WT HEAD -q || exit 2
